@@ -107,6 +107,9 @@ type Unit struct {
 	pendingBinds []Val
 	qn           int
 	topParams    map[string]Val
+	frameExtra   []specLoc
+	lockState    *State
+	frameSkip    map[string]bool
 	onReturn     func(f *Frame, st *State, vals []Val, k int, pos token.Pos)
 }
 
@@ -133,7 +136,7 @@ func (u *Unit) errf(format string, a ...any) {
 func (u *Unit) heapInit(name string, t types.Type) string {
 	n := name + "_init"
 	u.heapTy[name] = t
-	u.em.pre(fmt.Sprintf("(declare-const %s %s)", n, u.em.heapSort(name, t)))
+	u.em.pre(fmt.Sprintf("(declare-const %s %s)", n, u.heapSortU(name, t)))
 	if ax := u.heapAxiom(name, n, t, "alloc_init"); ax != "" {
 		u.em.pre("(assert " + ax + ")")
 	}
@@ -190,7 +193,7 @@ func (u *Unit) heapGet(st *State, name string, t types.Type) string {
 
 func (u *Unit) heapSet(st *State, name string, t types.Type, term string) {
 	u.heapTy[name] = t
-	st.heaps[name] = u.em.define(name, u.em.heapSort(name, t), term)
+	st.heaps[name] = u.em.define(name, u.heapSortU(name, t), term)
 }
 
 func (u *Unit) globalGet(st *State, g *ssa.Global) string {
@@ -240,6 +243,10 @@ func (u *Unit) oblige(f *Frame, st *State, kind, text, goal string, pos token.Po
 	}
 	u.em.obls = append(u.em.obls, ob)
 	// afterwards it may be assumed (execution continues only if it held)
+	switch kind {
+	case "guarded-read", "guarded-write", "unlock-unheld", "double-lock", "unguarded":
+		return
+	}
 	u.em.assert(implies(st.pc, goal))
 }
 
@@ -752,7 +759,7 @@ func (u *Unit) merge(ins []edgeState) *State {
 			out.heaps[k] = first
 			continue
 		}
-		n := u.em.fresh(k, u.em.heapSort(k, ty))
+		n := u.em.fresh(k, u.heapSortU(k, ty))
 		for _, e := range ins {
 			u.em.assert(implies(e.guard, fmt.Sprintf("(= %s %s)", n, u.heapGet(e.st, k, ty))))
 		}
@@ -915,7 +922,7 @@ func (u *Unit) havocLoop(f *Frame, st *State, fn *ssa.Function, body map[int]boo
 		if t == nil {
 			continue
 		}
-		st.heaps[k] = u.em.fresh(k, u.em.heapSort(k, t))
+		st.heaps[k] = u.em.fresh(k, u.heapSortU(k, t))
 		havocked = append(havocked, k)
 	}
 	defer func() {
@@ -1878,4 +1885,16 @@ func (u *Unit) loopOrdinals(fn *ssa.Function, hdrs []int, isBack map[[2]int]bool
 		nodes[h] = loops[best]
 	}
 	return assigned, nodes
+}
+
+// heapSortU: sort of any heap map (object heaps, backing arrays, Go maps).
+func (u *Unit) heapSortU(name string, t types.Type) string {
+	if mt, ok := t.(*types.Map); ok && (strings.HasPrefix(name, "M_") || strings.HasPrefix(name, "VM_")) {
+		d, v := u.mapSorts(mt)
+		if strings.HasPrefix(name, "VM_") {
+			return v
+		}
+		return d
+	}
+	return u.em.heapSort(name, t)
 }
